@@ -824,6 +824,21 @@ def _k4_obligations(tier: str) -> List[Ob]:
             sfx = '' if nl else ':no-final-newline'
             obs.append(_k4_case_ob('K4:C:empty-included-file' + sfx,
                                    {R: [('setup', 'i'), 'inc:f1', ('i', 'blank', 'inc:f1')], F1: []}, nl=nl))
+    # a header of a phase that the file already has an entry for (repeated declaration, or a phase first brought in by
+    # an earlier included file), then - in that phase - an inclusion of a file that begins without a header, and an
+    # erroneous instruction (`src` = unknown instruction): the included instructions and the phase named by the error
+    # report belong to the phase of the LAST header
+    second = ('assert', 'act', 'cleanup') if thorough else ('assert', 'act')
+    again = ('setup', 'assert', 'act') if thorough else ('setup', 'assert')
+    obs.append(_k4_case_ob('K4:C:repeated-header-then-include',
+                           {R: ['setup', 'i', second, ('i', 'src'), again, 'inc:f1', ('i', 'src')],
+                            F1: [('i', 'src', 'assert', 'comment') if thorough else ('i', 'src', 'assert'), 'i']}))
+    obs.append(_k4_case_ob('K4:C:phase-from-included-file-then-include',
+                           {R: ['setup', 'inc:f1', ('cleanup', 'assert'), 'inc:f2', ('i', 'src')],
+                            F1: [('cleanup', 'i'), 'i'], F2: [('i', 'src', 'setup') if thorough else ('i', 'src')]}))
+    obs.append(_k4_case_ob('K4:C:error-after-repeated-header',
+                           {R: [('setup', 'assert'), ('i', 'd'), ('act', 'cleanup'), 'i', ('setup', 'assert'),
+                                ('src', 'm', 'inc-noarg', 'd')]}))
     obs.append(_k4_case_ob('K4:C:seeded-oracle-error', {R: ['setup', 'inc:f1', ('i', 'comment')], F1: [('i', 'comment')]},
                            oracle_bug='include-at-end'))
     return obs
